@@ -38,6 +38,7 @@ CONSTANTS
   VKinds    \* verification variants explored (cfg: VKinds <- AllVKinds)
 
 BugNames == {"SkipClientMac", "SkipServerMac", "MacOverEcho", "ServerProofNoNonce", "NoFormatTag",
+             "KidPrefixContainment", "KidNoSanitize",
              "IdentityFromClaim", "SkipExpiry", "SkipMaxAge",
              "VerifySkipsSig", "VerifySkipsTime"}
 
@@ -55,13 +56,51 @@ ServerId == "server"
 
 Pos == {"first", "mid", "last"}   \* abstract position of a character / byte edit
 
-(* key files of the server: kid -> key material.  k9 is not held. *)
-SrvKeyOf(kid, d) ==
-  CASE kid = "k1" /\ d.kind = "srv_otherkey" -> "KX"
+(* ---- the key id as a PATH ---------------------------------------------------
+   The server holds named signing keys as files DIRECTLY inside its signing-key
+   directory (k1, k2) and the pool key (kid "POOL"; an empty kid means POOL).
+   A kid is attacker-chosen text, and the implementation turns it into a file
+   name, so the kid dimension has path-shaped classes.  FileOf(shape) is the key
+   material in the file that a path resolution of <keydir>/<kid> reaches, i.e.
+   what a forger who can read THAT file knows and signs with:
+     up_sibling    ../<keydir-name><suffix>/x : a SIBLING directory whose name
+                   merely extends the key directory's name (.old, -backup, ~)
+     up_unrelated  ../elsewhere/x             : traversal to an unrelated file
+     abs_out       /abs/path/x                : absolute path outside
+     backslash     ..\\<keydir>.old\\x          : other separator (a plain, absent name here)
+   none of which is a key the server holds; and spellings on which the
+   statement is silent (the server MAY resolve them or refuse them):
+     up_back_in    ../<keydir-name>/k1   dot_k1  ./k1 , k1/
+     sub_inner     sub/inner (a file BELOW the key directory)
+     dotdot_name   k1..bak   (a plain name containing "..")
+     nul           k1<NUL>junk (C string semantics would read k1) *)
+ForeignKids == {"up_sibling", "up_unrelated", "abs_out", "backslash"}
+SilentKids  == {"up_back_in", "dot_k1", "sub_inner", "dotdot_name", "nul"}
+PoolKids    == {"empty", "POOL"}
+KidShapes   == ForeignKids \cup SilentKids \cup PoolKids
+
+FileOf(shape) ==
+  CASE shape \in {"up_sibling", "backslash"} -> "KS"
+    [] shape = "up_unrelated" -> "KU"
+    [] shape = "abs_out" -> "KA"
+    [] shape \in {"up_back_in", "dot_k1", "nul"} -> "K1"
+    [] shape = "sub_inner" -> "KI"
+    [] shape = "dotdot_name" -> "KD"
+    [] shape \in PoolKids -> "KP"
+    [] OTHER -> "none"
+
+(* the key the INTENDED design uses for a kid: held named keys, the pool rule,
+   and - only if the server chooses to (lenient) - the statement-silent spellings *)
+IntendedKey(kid, d, lenient) ==
+  CASE kid = "k1" /\ d.kind \in {"srv_otherkey", "v_srv_otherkey"} -> "KX"
     [] kid = "k1" -> "K1"
     [] kid = "k2" -> "K2"
-    [] kid = "POOL" -> "KP"
+    [] kid \in PoolKids -> "KP"
+    [] kid \in SilentKids /\ lenient -> FileOf(kid)
     [] OTHER -> "none"
+
+(* the keys the statement allows the server to use for a kid *)
+AllowedKeys(kid, d) == {IntendedKey(kid, d, l) : l \in BOOLEAN} \ {"none"}
 
 (* token text = header.payload; halt / palt say that the header / payload text
    was altered at an abstract position ("" = untouched) *)
@@ -106,8 +145,11 @@ TokenDevs ==
   \cup {D("tok_sig", 0, p, "config") : p \in Pos}
   \cup {D("tok_sig_same", 0, "last", "config")}
   \cup {D(k, 0, "-", "config") : k \in {"tok_otherkey", "tok_unknownkid", "srv_otherkey"}}
-  \cup {D(k, 0, "-", v) : k \in {"exp_past", "exp_now", "exp_near", "iat_old", "iat_limit", "iat_near", "iat_future"},
+  \cup {D(k, 0, "-", v) : k \in {"exp_past", "exp_now", "exp_near", "iat_old", "iat_limit", "iat_near", "iat_future",
+                                  "time_both_bad", "no_exp", "no_iat", "nbf_future"},
                           v \in {"config", "insider"}}
+  \* the key id names a path: pos carries the shape; the presenter signs with the file the path reaches
+  \cup {D("kid_path", 0, sh, v) : sh \in KidShapes, v \in {"config", "insider"}}
 
 IdentityDevs ==
   {D("claim_m1", 1, "-", "wire"), D("claim_m3", 3, "-", "wire"), D("claim_all", 0, "-", "insider"),
@@ -137,7 +179,9 @@ VD(kind, pos) == [kind |-> kind, pos |-> pos]
 VCatalogue ==
        {VD(k, "-") : k \in {"v_none", "v_pool", "v_otherkey", "v_unknownkid", "v_srv_otherkey",
                             "v_exp_past", "v_exp_now", "v_exp_near", "v_iat_old", "v_iat_limit",
-                            "v_iat_near", "v_iat_future", "v_sig_same", "v_space"}}
+                            "v_iat_near", "v_iat_future", "v_sig_same", "v_space",
+                            "v_time_both_bad", "v_no_exp", "v_no_iat", "v_nbf_future"}}
+  \cup {VD("v_kid_path", sh) : sh \in KidShapes}
   \cup {VD(k, p) : k \in {"v_hdr", "v_pay", "v_sig"}, p \in Pos}
 AllVKinds == {d.kind : d \in VCatalogue}
 
@@ -151,10 +195,11 @@ VARIABLES
   m2s,               \* message 2 as the server sent it
   sErr,              \* the server has stored an error (deferred failure)
   tol,               \* an endpoint went on although a strict check was violated
+  lenK,              \* the server resolves the statement-silent kid spellings (fixed per behaviour)
   cOut, sOut, sUser, \* results: "pending" | "ok" | "fail" | "na" ; recorded identity
   vOut               \* "pending" | "accept" | "reject"
 
-vars == <<pc, mode, dev, cTok, cSig, m1, m2, m3, m2s, sErr, tol, cOut, sOut, sUser, vOut>>
+vars == <<pc, mode, dev, cTok, cSig, m1, m2, m3, m2s, sErr, tol, lenK, cOut, sOut, sUser, vOut>>
 
 (* the token a party presents under deviation d, and the key it was signed with *)
 TimeTok(kind) ==
@@ -165,16 +210,19 @@ TimeTok(kind) ==
     [] kind \in {"iat_limit", "v_iat_limit"}   -> Tok("k1", Alice, Now - MaxAge, Now + 600)
     [] kind \in {"iat_near", "v_iat_near"}     -> Tok("k1", Alice, Now - MaxAge + Near, Now + 600)
     [] kind \in {"iat_future", "v_iat_future"} -> Tok("k1", Alice, Now + Near, Now + 600)
+    [] kind \in {"time_both_bad", "v_time_both_bad"} -> Tok("k1", Alice, Now - MaxAge - Near, Now - Near)
     [] OTHER -> BaseTok
 
 PresentedTok(d) ==
   CASE d.kind \in {"tok_unknownkid", "v_unknownkid"} -> Tok("k9", Alice, Now - 5, Now + 600)
+    [] d.kind \in {"kid_path", "v_kid_path"} -> Tok(d.pos, Mallory, Now - 5, Now + 600)   \* any subject the forger likes
     [] d.kind = "v_pool" -> Tok("POOL", Alice, Now - 5, Now + 600)
     [] OTHER -> TimeTok(d.kind)
 
 SigningKey(d) ==
   CASE d.kind \in {"tok_otherkey", "v_otherkey"} -> "K2"       \* names k1, made with another key
     [] d.kind \in {"tok_unknownkid", "v_unknownkid"} -> "KX"
+    [] d.kind \in {"kid_path", "v_kid_path"} -> FileOf(d.pos)
     [] d.kind = "v_pool" -> "KP"
     [] OTHER -> "K1"
 
@@ -186,6 +234,9 @@ AlterPay(t, p) == [t EXCEPT !.palt = p]
 Expired(t)  == Now > t.exp
 TooOld(t)   == Now - t.iat > MaxAge
 TimeEdge(t) == Now = t.exp \/ Now - t.iat = MaxAge \/ t.iat > Now   \* statement silent
+(* claim combinations the statement says nothing about: a token without exp or
+   without iat, a not-before claim in the future *)
+SilentClaims(d) == d.kind \in {"no_exp", "no_iat", "nbf_future", "v_no_exp", "v_no_iat", "v_nbf_future"}
 
 -----------------------------------------------------------------------------
 Init ==
@@ -195,6 +246,7 @@ Init ==
   /\ cTok = BaseTok /\ cSig = Sig("K1", BaseTok)
   /\ m1 = NoMsg1 /\ m2 = NoMsg2 /\ m3 = NoMsg3 /\ m2s = NoMsg2
   /\ sErr = FALSE /\ tol = FALSE
+  /\ lenK \in (IF dev.kind \in {"kid_path", "v_kid_path"} /\ dev.pos \in SilentKids THEN BOOLEAN ELSE {FALSE})
   /\ cOut = "pending" /\ sOut = "pending" /\ sUser = "" /\ vOut = "pending"
 
 (* ---- the client obtains its credential (configuration deviations) ------- *)
@@ -255,6 +307,16 @@ ClientSend1 ==
 (* ---- server: receive 1, validate the token, derive keys, send 2 ---------- *)
 (* receiveServerTokenStep1 + validateTokenAndDeriveKeys + validateTokenTiming *)
 TextAltered(t) == t.halt # "" \/ t.palt # ""
+(* loadSigningKey.  Known-wrong designs: KidPrefixContainment resolves the path
+   and tests containment by STRING PREFIX of the key directory's name, which a
+   sibling directory whose name extends it passes; KidNoSanitize just opens
+   <keydir>/<kid>. *)
+SrvKeyOf(kid, d) ==
+  IF "KidNoSanitize" \in Bug /\ kid \in {"up_sibling", "up_unrelated", "up_back_in", "dot_k1", "sub_inner", "dotdot_name"}
+    THEN FileOf(kid)
+  ELSE IF "KidPrefixContainment" \in Bug /\ kid \in {"up_sibling", "up_back_in", "dot_k1", "sub_inner", "dotdot_name"}
+    THEN FileOf(kid)
+  ELSE IntendedKey(kid, d, lenK)
 SKey(t) == SrvKeyOf(t.kid, dev)                 \* loadSigningKey
 SSig(t) == Sig(SKey(t), t)                      \* computeTokenSignature
 SK(t)   == Kdf(SSig(t), t)                      \* deriveTokenKeys
@@ -267,7 +329,7 @@ StrictViolated1(m) ==
   \/ m.status # OK \/ m.trail \/ m.bad
   \/ m.ra \in {"short", "empty"}
   \/ TextAltered(m.tok)                                       \* may be unparsable
-  \/ TimeEdge(m.tok)
+  \/ TimeEdge(m.tok) \/ SilentClaims(dev)
   \/ m.a # m.tok.sub
 
 SubjectOf(m) == IF "IdentityFromClaim" \in Bug THEN m.a ELSE m.tok.sub
@@ -419,11 +481,11 @@ VSig ==
   CASE dev.kind \in {"v_hdr", "v_pay"} -> Sig("K1", BaseTok)
     [] dev.kind = "v_sig" -> Sig("junk", BaseTok)
     [] OTHER -> Sig(SigningKey(dev), PresentedTok(dev))
-VSrvKey == IF dev.kind = "v_srv_otherkey" THEN "KX" ELSE SrvKeyOf(VTok.kid, dev)
+VSrvKey == SrvKeyOf(VTok.kid, dev)
 
 SigVerifies == VSrvKey # "none" /\ VSig = Sig(VSrvKey, VTok)
 TimeValid   == ~Expired(VTok) /\ ~TooOld(VTok)
-VSilent     == TimeEdge(VTok) \/ dev.kind \in {"v_sig_same", "v_space"}   \* same signature bytes, other spelling
+VSilent     == TimeEdge(VTok) \/ SilentClaims(dev) \/ dev.kind \in {"v_sig_same", "v_space"}   \* same signature bytes, other spelling
 
 Verify ==
   /\ pc = "init" /\ mode = "verify"
@@ -436,7 +498,7 @@ Verify ==
   /\ pc' = "done"
   /\ UNCHANGED <<mode, dev, cTok, cSig, m1, m2, m3, m2s, sErr, tol, cOut, sOut, sUser>>
 
-Next == LoadCredential \/ ClientSend1 \/ ServerStep12 \/ ClientStep23 \/ ServerStep3 \/ Verify
+Next == (LoadCredential \/ ClientSend1 \/ ServerStep12 \/ ClientStep23 \/ ServerStep3 \/ Verify) /\ UNCHANGED lenK
 
 Spec == Init /\ [][Next]_vars
 
@@ -462,6 +524,12 @@ ServerOkImpliesClientKnewSig ==
     /\ m3.mac.by \in ClientSide /\ m3.mac.sess = 1
     /\ m3.mac.k.sig = SSig(m1.tok)
 
+(* ... and that key is one the server HOLDS as signing key: a file directly in
+   its key directory named by the kid, or the pool key - never a file that a
+   crafted kid merely reaches *)
+ServerOkImpliesKeyHeld ==
+  sOut = "ok" => SKey(m1.tok) \in AllowedKeys(m1.tok.kid, dev)
+
 (* ... of an unexpired, not-too-old token *)
 ServerOkImpliesTokenCurrent ==
   sOut = "ok" => Now <= m1.tok.exp /\ Now - m1.tok.iat <= MaxAge
@@ -482,7 +550,8 @@ ClientOkImpliesServerKnewSig ==
    under the named key and whose time claims are currently valid *)
 VerifyAcceptsExactly ==
   (mode = "verify" /\ pc = "done") =>
-    /\ vOut = "accept" => (SigVerifies /\ Now <= VTok.exp /\ Now - VTok.iat <= MaxAge)
+    /\ vOut = "accept" => ( /\ \E k \in AllowedKeys(VTok.kid, dev) : VSig = Sig(k, VTok)   \* under the NAMED, HELD key
+                            /\ Now <= VTok.exp /\ Now - VTok.iat <= MaxAge )
     /\ (SigVerifies /\ TimeValid /\ ~VSilent) => vOut = "accept"
 
 (* non-vacuity: the honest exchange, and exchanges whose only "deviation" is a
@@ -491,5 +560,10 @@ HonestRunSucceeds ==
   (mode = "exchange" /\ pc = "done" /\ dev.kind \in {"none", "exp_near", "iat_near"}) =>
     /\ sOut = "ok" /\ sUser = Alice
     /\ cOut \in {"ok", "na"}
+
+(* the documented pool rule: kid "POOL" or an empty kid names the pool key *)
+PoolRuleSucceeds ==
+  (pc = "done" /\ dev.kind \in {"kid_path", "v_kid_path"} /\ dev.pos \in PoolKids) =>
+    IF mode = "verify" THEN vOut = "accept" ELSE sOut = "ok" /\ sUser = Mallory /\ cOut \in {"ok", "na"}
 
 =============================================================================
